@@ -15,6 +15,7 @@
   the tensor storing value `x` (row-major elements, row-major strides).
 -/
 import EasyMl.Lemmas.Transform
+import EasyMl.Lemmas.Equality
 
 namespace EasyMl.C13
 open EasyMl EasyMl.Spec
@@ -181,5 +182,120 @@ example :
       (t.transpose ["b", "a"]) = .ok (Tensor.ofVal ⟨[("a", 3), ("b", 2)], [0, 3, 1, 4, 2, 5]⟩) ∧
       (t.reorder ["b", "b"]) = .panic .explicit := by
   refine ⟨_, rfl, ?_, ?_, ?_⟩ <;> rfl
+
+/-! ### equality -/
+
+/-- **Equality** (`tensor_equality`, behind all four `PartialEq` impls: tensor/tensor,
+    view/view, tensor/view, view/tensor) holds exactly when the two operands have the same value:
+    the same shape — names, order and lengths — and the same element at every index tuple. -/
+theorem eq_iff [DecidableEq α] (l r : TView ν α) (hl : l.lazy.Valid) (hr : r.lazy.Valid) :
+    tensorEquality l r = true ↔
+      l.shape = r.shape ∧
+      ∀ idx, inBounds (l.shape.map (·.2)) idx = true → l.get idx = r.get idx := by
+  rw [tensorEquality_iff l r hl hr]
+  constructor
+  · intro h
+    obtain ⟨hs, hg⟩ := equiv_of_materialise_eq hl hr h
+    exact ⟨hs, fun idx hb => hg idx (by simpa using inBounds_length _ _ hb)⟩
+  · rintro ⟨hs, hg⟩
+    rw [materialise_eq_iff]
+    refine ⟨hs, ?_⟩
+    simp only [materialise, TView.lazy_shape, TView.lazy_get, ← hs]
+    apply filterMap_congr'
+    intro x hx
+    exact hg x ((mem_allIndexes_iff _ x).1 hx)
+
+/-- the same, as equality of values (shape and row-major elements) -/
+theorem eq_iff_value [DecidableEq α] (l r : TView ν α) (hl : l.lazy.Valid) (hr : r.lazy.Valid) :
+    tensorEquality l r = true ↔ materialise l.lazy = materialise r.lazy :=
+  tensorEquality_iff l r hl hr
+
+theorem eq_refl [DecidableEq α] (v : TView ν α) (hv : v.lazy.Valid) : tensorEquality v v = true :=
+  (tensorEquality_iff v v hv hv).2 rfl
+
+theorem eq_symm [DecidableEq α] (l r : TView ν α) (hl : l.lazy.Valid) (hr : r.lazy.Valid)
+    (h : tensorEquality l r = true) : tensorEquality r l = true :=
+  (tensorEquality_iff r l hr hl).2 ((tensorEquality_iff l r hl hr).1 h).symm
+
+theorem eq_trans [DecidableEq α] (a b c : TView ν α) (ha : a.lazy.Valid) (hb : b.lazy.Valid)
+    (hc : c.lazy.Valid) (h1 : tensorEquality a b = true) (h2 : tensorEquality b c = true) :
+    tensorEquality a c = true :=
+  (tensorEquality_iff a c ha hc).2
+    (((tensorEquality_iff a b ha hb).1 h1).trans ((tensorEquality_iff b c hb hc).1 h2))
+
+/-- For tensors built from shape and data: equal ⇔ same shape and same data. -/
+theorem tensor_eq_iff [DecidableEq α] (s₁ s₂ : Shape ν) (d₁ d₂ : List α) (t₁ t₂ : Tensor ν α)
+    (h₁ : Tensor.tryFrom s₁ d₁ = some t₁) (h₂ : Tensor.tryFrom s₂ d₂ = some t₂) :
+    tensorEquality t₁.view t₂.view = true ↔ s₁ = s₂ ∧ d₁ = d₂ := by
+  obtain ⟨hv1, _, hm1⟩ := view_valid s₁ d₁ t₁ h₁
+  obtain ⟨hv2, _, hm2⟩ := view_valid s₂ d₂ t₂ h₂
+  rw [tensorEquality_iff _ _ hv1 hv2, hm1, hm2]
+  simp
+
+/-- Non-vacuity: equal / different names / one element differs. -/
+example : tensorEquality (Tensor.ofVal ⟨[("a", 2)], [1, 2]⟩).view (Tensor.ofVal ⟨[("a", 2)], [1, 2]⟩).view = true := by decide
+example : tensorEquality (Tensor.ofVal ⟨[("a", 2)], [1, 2]⟩).view (Tensor.ofVal ⟨[("b", 2)], [1, 2]⟩).view = false := by decide
+example : tensorEquality (Tensor.ofVal ⟨[("a", 2)], [1, 2]⟩).view (Tensor.ofVal ⟨[("a", 2)], [1, 3]⟩).view = false := by decide
+
+/-! ### similarity -/
+
+/-- **Similarity** (`tensor_similarity`, behind all four `Similar` impls) holds exactly when some
+    ordering of the right operand's dimension names makes it equal to the left operand. -/
+theorem similar_iff_exists_ordering [DecidableEq α] [Inhabited ν] (l r : TView ν α)
+    (hl : l.lazy.Valid) (hr : r.lazy.Valid) :
+    tensorSimilarity l r = true ↔
+      ∃ names, IsOrdering r.shape names ∧
+        materialise (reordered r.lazy names) = materialise l.lazy :=
+  tensorSimilarity_iff l r hl hr
+
+/-- The same in terms of the library's own operations: similar ⇔ some `reorder` of the right
+    operand is `==` to the left operand. -/
+theorem similar_iff_exists_reorder [DecidableEq α] [Inhabited ν] (l r : TView ν α)
+    (hl : l.lazy.Valid) (hr : r.lazy.Valid) :
+    tensorSimilarity l r = true ↔
+      ∃ names r', r.reorder names = .ok r' ∧ tensorEquality l r'.view = true := by
+  rw [tensorSimilarity_iff l r hl hr]
+  constructor
+  · rintro ⟨names, hp, hm⟩
+    have hp : IsOrdering r.shape names := hp
+    have hrv := reordered_valid hr names hp
+    refine ⟨names, Tensor.ofVal (materialise (reordered r.lazy names)), ?_, ?_⟩
+    · rw [reorder_eq_materialise_access r hr names, if_pos hp]
+    · have he : (Tensor.ofVal (materialise (reordered r.lazy names))).view.lazy.Equiv
+          (reordered r.lazy names) := ⟨rfl, fun idx hlen => hrv.ofVal_get idx hlen⟩
+      rw [tensorEquality_iff _ _ hl (hrv.of_equiv he), materialise_congr he, hm]
+  · rintro ⟨names, r', hre, heq⟩
+    rw [reorder_eq_materialise_access r hr names] at hre
+    by_cases hp : IsOrdering r.shape names
+    · rw [if_pos hp] at hre
+      simp only [Outcome.ok.injEq] at hre
+      subst hre
+      have hrv := reordered_valid hr names hp
+      have he : (Tensor.ofVal (materialise (reordered r.lazy names))).view.lazy.Equiv
+          (reordered r.lazy names) := ⟨rfl, fun idx hlen => hrv.ofVal_get idx hlen⟩
+      rw [tensorEquality_iff _ _ hl (hrv.of_equiv he), materialise_congr he] at heq
+      exact ⟨names, hp, heq.symm⟩
+    · rw [if_neg hp] at hre; cases hre
+
+theorem similar_refl [DecidableEq α] [Inhabited ν] (v : TView ν α) (hv : v.lazy.Valid) :
+    tensorSimilarity v v = true :=
+  (tensorSimilarity_iff v v hv hv).2 (similar_refl' hv)
+
+theorem similar_symm [DecidableEq α] [Inhabited ν] (l r : TView ν α) (hl : l.lazy.Valid)
+    (hr : r.lazy.Valid) (h : tensorSimilarity l r = true) : tensorSimilarity r l = true :=
+  (tensorSimilarity_iff r l hr hl).2 (similar_symm' hl hr ((tensorSimilarity_iff l r hl hr).1 h))
+
+/-- Anything `==` is also similar. -/
+theorem eq_imp_similar [DecidableEq α] [Inhabited ν] (l r : TView ν α) (hl : l.lazy.Valid)
+    (hr : r.lazy.Valid) (h : tensorEquality l r = true) : tensorSimilarity l r = true :=
+  (tensorSimilarity_iff l r hl hr).2 (similar_of_eq hr ((tensorEquality_iff l r hl hr).1 h))
+
+/-- Non-vacuity: the documentation's example (similar, not equal; lengths differ ⇒ not similar). -/
+example :
+    let one := (Tensor.ofVal ⟨[("a", 2), ("b", 3)], [1, 2, 3, 4, 5, 6]⟩).view
+    let two := (Tensor.ofVal ⟨[("b", 3), ("a", 2)], [1, 4, 2, 5, 3, 6]⟩).view
+    let three := (Tensor.ofVal ⟨[("b", 2), ("a", 3)], [1, 2, 3, 4, 5, 6]⟩).view
+    tensorSimilarity one two = true ∧ tensorEquality one two = false ∧
+    tensorSimilarity one three = false ∧ tensorSimilarity two one = true := by decide
 
 end EasyMl.C13
